@@ -118,3 +118,88 @@ Proof.
   - intros s' m R E W. eapply send_wakes; eassumption.
 Qed.
 Print Assumptions C14_subscriber_stream_pending_is_woken.
+
+(* ---------------- the whole stack on its two REAL leaves (FullStack.v) ----------------
+   A dynamic adapter whose inner stream is the plain stream of a subscriber of an ObservableVector
+   and whose limit stream is a Subscriber of an Observable<usize>; any history of calls on both
+   sides.  Whenever the adapter's stream answers Pending, the vector's receiver is waiting and the
+   observable's waker list holds the limit subscriber's entry (registration is a fact about the
+   states of the two leaves, not about a scripted trace); hence every published message and the
+   drop of the vector, every notifying update of the limit and the closing of the observable wake
+   the task; and a poll always answers (the loop terminates). *)
+From EB Require Import AdapterCore Obs OVecRun FullStack FullStackFacts.
+
+Section FullStackC14.
+Context {A St : Type}.
+Variable veq heq : nat -> nat -> bool.
+Variable vdefault : nat.
+Variable on_diff : St -> diff A -> outcome (St * list (diff A)).
+Variable on_param : St -> nat -> St * option (list (diff A)).
+Variable init : nat -> list A -> St * list A.
+Variable R : St -> list A -> list A -> Prop.
+Variable param : St -> nat.
+Hypothesis Hinit : forall n l, R (fst (init n l)) l (snd (init n l)) /\ param (fst (init n l)) = n.
+Hypothesis Hstep : step_ok on_diff R.
+Hypothesis Hstep_param : forall st d st' outs, on_diff st d = Ok (st', outs) -> param st' = param st.
+Hypothesis Hparam : param_ok on_param R.
+Hypothesis Hparam_set : forall st n, param (fst (on_param st n)) = n.
+Hypothesis Hshape : forall st n, snd (on_param st n) <> Some [].
+Notation fstep := (fstep veq heq vdefault on_diff on_param init).
+Notation frun := (frun veq heq vdefault on_diff on_param init).
+
+Theorem C14_full_stack_pending_registers_with_both_leaves :
+  forall capacity okd limit0 evs s fuel s',
+    frun (fs_init capacity okd limit0) evs = ROk s ->
+    fstep s (FPoll fuel) = ROk (s', FAnswer Pending) ->
+    exists a, f_ad s' = Some a /\
+      (exists sb, nth_error (OVec.subs (g_o (f_g s'))) (a_k a) = Some (Some sb) /\ sb_waiting sb = true) /\
+      (ver (f_lim s') <> 0 -> In (a_j a) (wakers (f_lim s'))).
+Proof.
+  exact (full_pending_registers veq heq vdefault on_diff on_param init R param
+           Hinit Hstep Hstep_param Hparam Hparam_set Hshape).
+Qed.
+
+Theorem C14_full_stack_limit_change_and_close_wake :
+  forall capacity okd limit0 evs s fuel s' a x o' out w,
+    frun (fs_init capacity okd limit0) evs = ROk s ->
+    fstep s (FPoll fuel) = ROk (s', FAnswer Pending) ->
+    f_ad s' = Some a ->
+    Obs.step veq heq vdefault (f_lim s') x = Ok (o', out, w) ->
+    ver o' <> ver (f_lim s') ->
+    In (a_j a) w.
+Proof.
+  exact (full_limit_change_wakes veq heq vdefault on_diff on_param init R param
+           Hinit Hstep Hstep_param Hparam Hparam_set Hshape).
+Qed.
+
+Theorem C14_full_stack_vector_update_and_drop_wake :
+  forall capacity okd limit0 evs s fuel s' a,
+    frun (fs_init capacity okd limit0) evs = ROk s ->
+    fstep s (FPoll fuel) = ROk (s', FAnswer Pending) ->
+    f_ad s' = Some a ->
+    (forall m, 0 < rx_cnt (g_o (f_g s')) -> In (a_k a) (snd (send (g_o (f_g s')) m))) /\
+    In (a_k a) (snd (drop_vec (g_o (f_g s')))).
+Proof.
+  intros capacity okd limit0 evs s fuel s' a E H Ea.
+  destruct (C14_full_stack_pending_registers_with_both_leaves _ _ _ _ _ _ _ E H)
+    as (a' & Ea' & (sb & Esb & Hw) & _).
+  rewrite Ea in Ea'. injection Ea' as <-.
+  split.
+  - intros m Hr. eapply send_wakes; eassumption.
+  - eapply drop_vec_wakes; eassumption.
+Qed.
+
+Theorem C14_full_stack_poll_always_answers :
+  forall capacity okd limit0 evs s,
+    frun (fs_init capacity okd limit0) evs = ROk s ->
+    exists fuel, forall fuel', fuel <= fuel' -> fstep s (FPoll fuel') <> RFuel.
+Proof.
+  exact (full_poll_terminates veq heq vdefault on_diff on_param init R param
+           Hinit Hstep Hstep_param Hparam Hparam_set Hshape).
+Qed.
+
+End FullStackC14.
+Print Assumptions C14_full_stack_pending_registers_with_both_leaves.
+Print Assumptions C14_full_stack_limit_change_and_close_wake.
+Print Assumptions C14_full_stack_vector_update_and_drop_wake.
+Print Assumptions C14_full_stack_poll_always_answers.
